@@ -1548,8 +1548,12 @@ class WassersteinDistanceNewton(VariationalWassersteinDistance):
             self.darcy_init.copy(), rhs.copy(), solution_i
         )
 
-        # Initialize distance in case below iteration fails
-        new_distance = 0
+        # Initialize distance in case below iteration fails - the distance associated
+        # to the initial guess
+        new_distance = self.l1_dissipation(solution_i[self.flux_slice])
+
+        # Flag controlling whether the stopping criteria have been met
+        converged = False
 
         # Initialize container for storing the convergence history
         convergence_history = {
@@ -1685,6 +1689,7 @@ class WassersteinDistanceNewton(VariationalWassersteinDistance):
                             < tol_distance
                         )
                     ):
+                        converged = True
                         break
             except Exception:
                 warnings.warn("Newton iteration abruptly stopped due to some error.")
@@ -1696,7 +1701,7 @@ class WassersteinDistanceNewton(VariationalWassersteinDistance):
 
         # Define performance metric
         info = {
-            "converged": iter < num_iter - 1,
+            "converged": converged,
             "number_iterations": iter,
             "convergence_history": convergence_history,
             "timings": total_timings,
@@ -1825,8 +1830,12 @@ class WassersteinDistanceBregman(VariationalWassersteinDistance):
             self.darcy_init.copy(), rhs.copy(), solution_i
         )
 
-        # Initialize distance in case below iteration fails
-        new_distance = 0
+        # Initialize distance in case below iteration fails - the distance associated
+        # to the initial guess
+        new_distance = self.l1_dissipation(solution_i[self.flux_slice])
+
+        # Flag controlling whether the stopping criteria have been met
+        converged = False
 
         # Initialize container for storing the convergence history
         convergence_history = {
@@ -2047,6 +2056,7 @@ class WassersteinDistanceBregman(VariationalWassersteinDistance):
                             < tol_residual
                         )
                     ):
+                        converged = True
                         break
 
                 # Update Bregman variables
@@ -2074,7 +2084,7 @@ class WassersteinDistanceBregman(VariationalWassersteinDistance):
 
         # Define performance metric
         info = {
-            "converged": iter < num_iter - 1,
+            "converged": converged,
             "number_iterations": iter,
             "convergence_history": convergence_history,
             "timings": total_timings,
